@@ -118,7 +118,7 @@ def Prog(preds, rec=(), ann=()):
     if len(r) > 3 and r[3]:
       ann.append('@Recursive(%s, %d%s);' % (
           r[3], depth, ', iterative: true' if iterative else ''))
-  return {'preds': list(preds), 'rec': recs, 'ann': ann}
+  return {'preds': list(preds), 'rec': recs, 'ann': ann, 'makes': []}
 
 
 # ---- rendering ----------------------------------------------------------------
@@ -348,6 +348,9 @@ def RenderProgram(prog, engine_line='@Engine("sqlite");'):
           for o in p['order'])))
     if p.get('limit', -1) >= 0 and not p.get('limit_as_denotation'):
       lines.append('@Limit(%s, %d);' % (p['name'], p['limit']))
+  for mk in prog.get('makes', []):
+    lines.append('%s := %s(%s);' % (mk['name'], mk['functor'], ', '.join(
+        '%s: %s' % (a['k'], a['v']) for a in mk['args'])))
   order = prog.get('stmt_order') or [
       [i, j] for i, p in enumerate(prog['preds'])
       for j in range(len(p['rules']))]
